@@ -316,7 +316,7 @@ def encode (m : Map) : Bytes :=
   -- tileset sources: length-prefixed name, tile count only after a non-empty name
   m.sources.flatMap (fun s => encU32 s.name.length ++ s.name ++ (if s.name = [] then [] else encU32 s.numTiles)) ++
   -- marker, the two record tables
-  asciiBytes "TILE SET\x1a" ++ [0] ++
+  [0x54, 0x49, 0x4C, 0x45, 0x20, 0x53, 0x45, 0x54, 0x1A, 0x00] ++           -- "TILE SET", 0x1A, NUL
   encU32 m.mappings.length ++ m.mappings.flatMap id ++
   encU32 m.terrains.length ++ m.terrains.flatMap id ++
   -- the version tag twice more
